@@ -179,3 +179,9 @@ theorem count_mismatch_dropped {α β : Type} (keys : List α) (contents : List 
 
 #print axioms accepted_only_if
 end Of
+
+namespace Of
+def Verdict.name : Verdict → String
+  | .accepted => "accepted" | .declined => "declined" | .alreadyStored => "alreadyStored"
+  | .notWithinRadius => "notWithinRadius" | .rateLimited => "rateLimited" | .inProgress => "inProgress"
+end Of
